@@ -17,6 +17,8 @@ READ_PATH_MODULES = [
     "sedpack.io.tfrec.read", "sedpack.io.tfrec.tfdata", "sedpack.io.compress",
     "sedpack.io.shard.iterate_shard_base",
 ]
+READER_MODULES = {"sedpack.io.flatbuffer.iterate", "sedpack.io.npz.iterate_npz",
+                  "sedpack.io.tfrec.read"}
 CONTROL_FLOW = {"StopIteration", "StopAsyncIteration", "queue.Empty", "Empty",
                 "GeneratorExit"}
 # (function, handler names) -> reason; one named symbol each
@@ -220,6 +222,26 @@ def check_handlers(ctx: Context, rep, rule: str, forwarded_ok: set[int]) -> None
                         rep.ob(rule, False, loc=fn.loc(node), where=fn.qualname,
                                construct=short(node),
                                message="contextlib.suppress on a read path")
+                if isinstance(node, ast.Call):
+                    f = node.func
+                    nm = f.attr if isinstance(f, ast.Attribute) else (
+                        f.id if isinstance(f, ast.Name) else "")
+                    if nm in ("glob", "iglob", "rglob", "list_files", "listdir",
+                              "scandir", "iterdir", "walk", "match_filenames_once"):
+                        rep.ob(rule, False, loc=fn.loc(node), where=fn.qualname,
+                               construct=short(node, 80),
+                               message="the read path enumerates / globs the "
+                               "file system instead of opening exactly the "
+                               "files the metadata names: a missing shard "
+                               "would be skipped silently")
+                if isinstance(node, ast.Return) and modname in READER_MODULES \
+                        and any(isinstance(x, (ast.Yield, ast.YieldFrom))
+                                for x in fn.body_nodes()):
+                    rep.ob(rule, False, loc=fn.loc(node), where=fn.qualname,
+                           construct=short(node),
+                           message="a shard reader (generator) ends early "
+                           "with `return`: content it does not like would be "
+                           "skipped instead of being rejected by the decoder")
                 if isinstance(node, (ast.If, ast.While, ast.IfExp)):
                     for c in ast.walk(node.test):
                         if isinstance(c, ast.Call) and isinstance(
@@ -331,6 +353,14 @@ SELFTESTS = [
          path="src/sedpack/io/npz/iterate_npz.py",
          old="        shard_content: dict[str, list[AttributeValueT]] = np.load(file_path)\n",
          new="        if not Path(file_path).exists():\n            return\n        shard_content: dict[str, list[AttributeValueT]] = np.load(file_path)\n"),
+    dict(rule="C07.handlers", name="glob-paths", expect="fire",
+         path="src/sedpack/io/dataset_iteration.py",
+         old="        tf_dataset = tf.data.Dataset.from_tensor_slices(shard_paths)\n",
+         new="        tf_dataset = tf.data.Dataset.list_files(shard_paths, shuffle=False)\n"),
+    dict(rule="C07.handlers", name="reader-early-return", expect="fire",
+         path="src/sedpack/io/flatbuffer/iterate.py",
+         old="        shard = fbapi_Shard.Shard.GetRootAs(content, 0)\n",
+         new="        if not content:\n            return\n        shard = fbapi_Shard.Shard.GetRootAs(content, 0)\n"),
     dict(rule="C07.pool", name="map-discarded", expect="fire",
          path="src/sedpack/io/dataset_iteration.py",
          old="                        yield from itertools.chain.from_iterable(\n                            executor.map(shard_iterator.process_and_list,\n                                         batch))\n",
